@@ -52,7 +52,7 @@ func genC04(e *emitter, tier string, seed uint64) {
 	case "thorough":
 		n = 100000
 	case "widen":
-		n = 20000
+		n = 15000
 	}
 	lits := []string{"minus", "plus", "none"}
 	envs := map[string]chan *sfEnv{}
